@@ -192,7 +192,7 @@ class SeqOf(PSpec):
         st.assume(n >= self.min_len)
         if self.max_len is not None:
             st.assume(n <= self.max_len)
-        i = ex.fresh(name + ".i", z3.IntSort())
+        i = ex.fresh_const(name + ".i", z3.IntSort())
         el = generic_element(ex, st, i, n, lambda: self.elem(ex, st, f"{name}[i]", i))
         return ex.alloc(st, ListObj(L.LT([L.MapSeg(i, n, L.LT([L.Unit(el)]), name)])))
 
@@ -202,7 +202,7 @@ def generic_element(ex, st: State, i, n, build: Callable[[], Any]):
     constraint assumed meanwhile is asserted for all indices in range"""
     n0 = len(st.pc)
     saved = ex.index_ctx
-    ex.index_ctx = i
+    ex.index_ctx = list(saved) + [i]
     try:
         el = build()
     finally:
@@ -211,7 +211,24 @@ def generic_element(ex, st: State, i, n, build: Callable[[], Any]):
     del st.pc[n0:]
     if new:
         st.assume(z3.ForAll([i], z3.Implies(z3.And(i >= 0, i < n), z3.And(*new))))
+    _give_identity(ex, st, el, i)
     return el
+
+
+def _give_identity(ex, st: State, v, i) -> None:
+    if isinstance(v, (tuple, list)):
+        for x in v:
+            _give_identity(ex, st, x, i)
+    elif isinstance(v, Tup):
+        for x in v.items:
+            _give_identity(ex, st, x, i)
+    elif isinstance(v, Ref):
+        o = st.heap.get(v.oid)
+        if isinstance(o, Obj) and o.ident is None:
+            ctx = list(ex.index_ctx) + [i]
+            o.ident = mk_i(z3.Function(f"ident!{v.oid}", *([z3.IntSort()] * len(ctx)), z3.IntSort())(*ctx))
+            for x in o.fields.values():
+                _give_identity(ex, st, x, i)
 
 
 class DictOf(PSpec):
@@ -224,10 +241,10 @@ class DictOf(PSpec):
     def make(self, ex, st, name):
         n = ex.fresh(name + ".len", z3.IntSort())
         st.assume(n >= 0)
-        i = ex.fresh(name + ".i", z3.IntSort())
+        i = ex.fresh_const(name + ".i", z3.IntSort())
         k, v = generic_element(ex, st, i, n, lambda: (self.key(ex, st, f"{name}.key", i),
                                                       self.value(ex, st, f"{name}.val", i)))
-        j = ex.fresh(name + ".j", z3.IntSort())
+        j = ex.fresh_const(name + ".j", z3.IntSort())
         kj = ex.subst(st, k, i, j)
         # keys of a dict are pairwise distinct
         st.assume(z3.ForAll([i, j], z3.Implies(z3.And(i >= 0, i < n, j >= 0, j < n, k.t == kj.t), i == j)))
